@@ -159,7 +159,15 @@ func (m *Model) invokesFieldValue(in ssa.Instruction, field string) bool {
 // at the MakeClosure), and a parameter of a function with exactly one call site (the argument
 // there). It stops at the first value that is none of these.
 func (m *Model) traceValue(v ssa.Value) ssa.Value {
+	return m.traceValueUntil(v, nil)
+}
+
+// traceValueUntil is traceValue that stops as soon as stop(v) holds.
+func (m *Model) traceValueUntil(v ssa.Value, stop func(ssa.Value) bool) ssa.Value {
 	for i := 0; i < 8; i++ {
+		if stop != nil && stop(v) {
+			return v
+		}
 		switch x := v.(type) {
 		case *ssa.UnOp:
 			if x.Op != token.MUL {
